@@ -178,11 +178,11 @@ def run_driver(exe, lines, timeout=1200):
 
 # ------------------------------------------------------------------ CLI helpers
 
-def oas(args, timeout=60, cwd=None):
+def oas(args, timeout=60, cwd=None, env=None):
     """Run the freshly built CLI. Returns (rc, stdout+stderr)."""
     try:
         p = subprocess.run([OAS_BIN] + args, stdout=subprocess.PIPE, stderr=subprocess.STDOUT, text=True,
-                           timeout=timeout, env=ENV, cwd=cwd)
+                           timeout=timeout, env=env or ENV, cwd=cwd)
         return p.returncode, p.stdout
     except subprocess.TimeoutExpired:
         return -999, "TIMEOUT"
